@@ -109,18 +109,18 @@ IsHullOf(kind, h, P) ==
 \* transform.UniqueCoords / TreeSet and sorting.FlatCoord, as a set / order specification
 \* @type: (Seq(Int), Seq(Int)) => Bool;
 Less2D(a, b) == a[1] < b[1] \/ (a[1] = b[1] /\ a[2] < b[2])
-\* out keeps, in input order, exactly the first occurrence of every XY position, with all its ordinates
+\* The components the hull is built from.  C13 does not prescribe WHICH of several input points at one position represents
+\* it (nor in which order a de-duplication returns them): one whole input coordinate per distinct XY position, no position twice.
 \* @type: (Seq(Seq(Int)), Seq(Seq(Int))) => Bool;
 IsUniqueOf(out, P) ==
-  LET firsts == {i \in DOMAIN P : \A j \in DOMAIN P : j < i => ~SameXY(P[j], P[i])} IN
-  /\ Len(out) = Cardinality(firsts)
-  /\ \A k \in DOMAIN out : \E i \in firsts : out[k] = P[i] /\ Cardinality({j \in firsts : j <= i}) = k
-\* out is the set of first occurrences in strictly increasing (x, y) order
+  /\ Len(out) = Cardinality(PtsXY(P))
+  /\ \A k \in DOMAIN out : \E i \in DOMAIN P : out[k] = P[i]
+  /\ \A k, m \in DOMAIN out : k # m => ~SameXY(out[k], out[m])
+\* ... and for the ordered set, in strictly increasing (x, y) order
 \* @type: (Seq(Seq(Int)), Seq(Seq(Int))) => Bool;
 IsSortedSetOf(out, P) ==
-  LET firsts == {i \in DOMAIN P : \A j \in DOMAIN P : j < i => ~SameXY(P[j], P[i])} IN
-  /\ Len(out) = Cardinality(firsts)
-  /\ \A k \in DOMAIN out : \E i \in firsts : out[k] = P[i]
+  /\ Len(out) = Cardinality(PtsXY(P))
+  /\ \A k \in DOMAIN out : \E i \in DOMAIN P : out[k] = P[i]
   /\ \A k \in DOMAIN out : k < Len(out) => Less2D(out[k], out[k+1])
 \* out is a permutation of P (as a multiset of whole coordinates) in non-decreasing (x, y) order
 \* @type: (Seq(Seq(Int)), Seq(Seq(Int))) => Bool;
@@ -221,8 +221,22 @@ SegSegOK(a, b, c, d, t, ps, sc) ==
           THEN Len(ps) = 2 /\ <<ps[1][1], ps[1][2]>> \in sh /\ <<ps[2][1], ps[2][2]>> \in sh /\ ~SameXY(ps[1], ps[2])
      ELSE /\ Len(ps) = 1
           /\ IF both # {} THEN <<ps[1][1], ps[1][2]>> \in both                      \* a common endpoint: exactly that point
-             ELSE IF sh # {} THEN \E e \in sh : NearCross(ps[1], <<e[1], e[2], 1>>, sc, 0)
+             \* a T junction (an endpoint of one segment inside the other): that endpoint, or - when it is COMPUTED as the crossing
+             \* of the two lines - a point within the same forward-error bound as any other crossing
+             ELSE IF sh # {} THEN \/ \E e \in sh : NearCross(ps[1], <<e[1], e[2], 1>>, sc, 0)
+                                  \/ (~Collinear4(a, b, c, d) /\ NearCross(ps[1], CrossPt(a, b, c, d), sc, l1 * l2 * (l1 + l2)))
              ELSE NearCross(ps[1], CrossPt(a, b, c, d), sc, l1 * l2 * (l1 + l2))
+\* classification only (float64 input of arbitrary magnitude, where the accuracy of a computed crossing point is not stated):
+\* the class, the number of points, a common endpoint exactly, the end points of an overlap
+\* @type: (Seq(Int), Seq(Int), Seq(Int), Seq(Int), Str, Seq(Seq(Int))) => Bool;
+SegSegClassOK(a, b, c, d, t, ps) ==
+  LET k == SegSegClass(a, b, c, d)  sh == SharedEnds(a, b, c, d)
+      both == sh \cap {<<a[1], a[2]>>, <<b[1], b[2]>>} \cap {<<c[1], c[2]>>, <<d[1], d[2]>>} IN
+  /\ t = k
+  /\ IF k = "none" THEN Len(ps) = 0
+     ELSE IF k = "overlap"
+          THEN Len(ps) = 2 /\ <<ps[1][1], ps[1][2]>> \in sh /\ <<ps[2][1], ps[2][2]>> \in sh /\ ~SameXY(ps[1], ps[2])
+     ELSE Len(ps) = 1 /\ (both # {} => <<ps[1][1], ps[1][2]>> \in both)
 \* got (scaled) is within tn/td of the square root of the rational r
 \* @type: (Int, Int, Int, Seq(Int)) => Bool;
 DistExactOK(got, tn, td, r) == WithinExact(got, 1, tn, td, r)
